@@ -92,6 +92,9 @@ M("c03_suffix_symbols_preseeded", "C03", "ak/llparser.py",
 M("c03_only_start_reachable_checked", "C03", "ak/llparser.py",
   "            if symbol in processed_symbols:\n                continue\n            # (symbol, prod_rules, cur_prod_id, cur_symbol_id)",
   "            if symbol in processed_symbols or len(processed_symbols) > len(self.terminals):\n                continue\n            # (symbol, prod_rules, cur_prod_id, cur_symbol_id)")
+M("c03_cycle_search_only_compares_with_top", "C03", "ak/llparser.py",
+  "                for i, (stack_symbol, _, _, _) in enumerate(stack):\n                    if stack_symbol == cur_symbol:",
+  "                for i, (stack_symbol, _, _, _) in enumerate(stack):\n                    if stack_symbol == cur_symbol and i >= len(stack) - 1:")
 # (a mutant that ignores a match at the bottom of the DFS stack is equivalent: the cycle is found
 # one level deeper; one that only compares with the top of the stack makes the constructor itself
 # loop forever - the repo's test hangs - so neither is in the catalogue)
@@ -143,3 +146,34 @@ M("c05_deep_tail_drops_items_after_10", "C05", "ak/llparser.py",
 M("c05_map_key_order_sorted", "C05", "ak/llparser.py",
   "        t_elem.value = dict(kv_pairs)",
   "        t_elem.value = dict(sorted(dict(kv_pairs).items()))")
+
+# ---------------------------------------------------------------- C06
+MUTANTS.append(dict(name="c06_revert_notmerged_fix", props=["C06"], diff="selftest/patches/c06_revert_notmerged_fix.diff"))
+M("c06_notmerged_not_filtered", "C06", "ak/ghist.py",
+  "            if rcommit.is_explicit and iid not in merged_rcommits", "            if rcommit.is_explicit")
+M("c06_prev_branch_builds_ignored", "C06", "ak/ghist.py",
+  "            iid in self.brcommits and iid not in prev_branches_builds)", "            iid in self.brcommits)")
+M("c06_branch_sort_plain_string", "C06", "ak/ghist.py",
+  "                return item_0 - item_1\n            if is_int_0:  # other is not int\n                return -1  # string is always bigger",
+  "                return (str(item_0) > str(item_1)) - (str(item_0) < str(item_1))\n            if is_int_0:  # other is not int\n                return -1  # string is always bigger")
+M("c06_printable_drops_build_commit", "C06", "ak/ghist.py",
+  "            if rcommit.is_explicit]", "            if rcommit.is_explicit and rcommit is not self.rcommit]")
+M("c06_notmerged_carry_over_lost", "C06", "ak/ghist.py",
+  "        repo_cache.prev_branches_rcommits.update(merged_rcommits)",
+  "        repo_cache.prev_branches_rcommits = dict(merged_rcommits)")
+
+# ---------------------------------------------------------------- C07
+M("c07_trivial_bump_test", "C07", "ak/ghist.py",
+  "        return self.to_rbuild.iid in self.from_rbuilds", "        return bool(self.from_rbuilds)")
+M("c07_bump_dfs_does_not_stop", "C07", "ak/ghist.py",
+  "            if cur_rbuild.iid in self.from_rbuilds:\n                # do not go deeper\n                dfs_sp[-1] = cur_sp - 1\n                continue",
+  "            if False:\n                continue")
+# (registering parent builds in the other order only permutes included_at: not a violation)
+M("c07_cycle_check_only_direct", "C07", "ak/ghist.py",
+  "                if repo_id in dfs_path_names]", "                if repo_id in dfs_path_names[-1:]]")
+M("c07_sorted_by_supply_order", "C07", "ak/ghist.py",
+  "            if not not_processed_sub_components:\n                # all dependecies",
+  "            if not not_processed_sub_components or len(dfs_stack) > 2:\n                # all dependecies")
+M("c07_not_built_head_not_registered", "C07", "ak/ghist.py",
+  "                    if my_rbuild.build_num.is_fake_not_merged():\n                        continue",
+  "                    if my_rbuild.build_num.is_fake_not_merged() or my_rbuild.build_num.is_fake_not_built():\n                        continue")
